@@ -9,3 +9,7 @@ import Ymq.Props.C19Wied
 #print axioms Ymq.C19Wied.mulp_overflow_witness
 #print axioms Ymq.C19Wied.detp4_lane_of_model
 #print axioms Ymq.C19Wied.detp4_lane_of_norm
+#print axioms Ymq.C19Wied.isprime64_isprimeSound
+#print axioms Ymq.C19Wied.select_crtprimes_spec
+#print axioms Ymq.C19Wied.select_crtprimes_zero_norm
+#print axioms Ymq.C19Wied.detz_of_detp_selected_partial
